@@ -3,7 +3,7 @@ from .common import COMMON_TRUST
 from .fam_idset import IdsetFam
 
 PROP = Property(
-    "C19", ["HsVerif.Props.C19", "HsVerif.Props.C19Gen"], [IdsetFam()],
+    "C19", ["HsVerif.Props.C19", "HsVerif.Props.C19Gen", "HsVerif.Props.C19GenCor"], [IdsetFam()],
     facts=[
         {"func": "security/crypto/bitfield.go:Bitfield.Add", "order": ["index", "extend", "set"]},
         {"func": "security/crypto/bitfield.go:Bitfield.Contains", "order": ["index", "isSet"]},
